@@ -521,6 +521,14 @@ class LowerToIRVisitor(Visitor.DefaultVisitor):
         assert isinstance(left, LinearIR.Value)
         assert isinstance(right, LinearIR.Value)
 
+        if (
+            left.Type.IsScalar()
+            and right.Type.IsMatrix()
+            and be.GetOperation() == op.Operation.MUL
+        ):
+            # S * M is lowered like M * S
+            left, right = right, left
+
         if left.Type.IsMatrix() and right.Type.IsMatrix():
             # M <op> M, needs to get lowered per row
             operation = be.GetOperation()
